@@ -131,6 +131,10 @@ class AbstractDataframeDataReader:
 
         # Check patient ID common to every format
         self._check_ID(df["ID"])
+        if isinstance(df["ID"].dtype, pd.CategoricalDtype):
+            # use the plain identifiers: every `groupby` on a categorical level would also
+            # yield its unobserved categories as individuals without data
+            df["ID"] = df["ID"].astype(df["ID"].cat.categories.dtype)
 
         df = self._set_index(df)
         if not df.index.is_unique:
